@@ -47,9 +47,17 @@ ASSUMPTIONS = [
 P8 = 'pico8.game.formatter.p8'
 
 
-def rule_sections(ctx, res):
+def rule_sections(ctx, res, traced=False):
     model, ev = ctx.model, ctx.consts
     w = model.func(P8 + ':P8Formatter.to_file')
+    r = model.func(P8 + ':P8Formatter.from_file')
+    if not traced:
+        _rule_sections_shape(ctx, res, w)
+    _rule_header_lines(ctx, res, w, r)
+
+
+def _rule_sections_shape(ctx, res, w):
+    model, ev = ctx.model, ctx.consts
     outp = w.params()[2]
     written = []
     writer_attr = {}
@@ -146,6 +154,11 @@ def rule_sections(ctx, res):
                   '__{}__ is written from game.{} ({}) but read into '
                   'game.{} with {}'.format(sec, wattr, wcls, rattr, rfn),
                   w.loc)
+
+
+def _rule_header_lines(ctx, res, w, r):
+    model, ev = ctx.model, ctx.consts
+    from .. import norm as _n
     # title and version lines
     raw = model.func(P8 + ':_get_raw_data_from_p8_file')
     t_ok = any(isinstance(n, ast.Compare) and 'HEADER_TITLE_STR' in
@@ -180,6 +193,133 @@ def rule_sections(ctx, res):
               'parsed version stored on the game', '',
               'the version number read from the file is dropped', r.loc)
     res.require_min('R-C03-sections', 10)
+
+
+def rule_sections_traced(ctx, res):
+    """sections / label / title / version from the path-wise models of
+    to_file and from_file (p8trace): independent of statement shape"""
+    from . import p8trace as T
+    w, out, traces = T.writer_trace(ctx)
+    # ---- writer: section sequence per path ---------------------------------
+    seqs = {}
+    label_rule = []
+    for (p, items) in traces:
+        secs = T.sections_of(items)
+        names = [n for (n, _l, _h) in secs]
+        srcs = {n: (T.source_attr(l) if l is not None else None)
+                for (n, l, _h) in secs}
+        has_label = 'label' in names
+        pol = None
+        for (t, v) in p.conds:
+            q = T.truth_polarity(t, v, 'game.label')
+            if q is not None:
+                pol = q
+        label_rule.append((has_label, pol, p))
+        key = tuple(n for n in names if n != 'label')
+        seqs.setdefault(key, []).append(srcs)
+    if len(seqs) != 1:
+        raise AnalysisError('to_file writes different section sequences on '
+                            'different paths: {}'.format(sorted(seqs)))
+    (written, src_list), = seqs.items()
+    written = list(written)
+    srcs = {}
+    for d in src_list:
+        for k, v in d.items():
+            if srcs.setdefault(k, v) != v:
+                raise AnalysisError('section {} written from different '
+                                    'sources on different paths'.format(k))
+    has_label_anywhere = any(h for (h, _p, _q) in label_rule)
+    names = written + (['label'] if has_label_anywhere else [])
+    # ---- reader dispatch ----------------------------------------------------
+    r, disp = T.reader_dispatch(ctx, names + ['no_such_section'])
+    accepted = {}
+    for n in names:
+        st = disp.get(n)
+        if isinstance(st, list):
+            game_stores = [(t, c) for (t, c, _n) in st
+                           if t.count('.') == 1]
+            if game_stores:
+                accepted[n] = game_stores
+    res.tables['p8_sections_written'] = names
+    res.check(sorted(names) == sorted(accepted) and len(names) == 7,
+              'R-C03-sections', w.qual, 'sections written == sections read',
+              '{}'.format(names),
+              'writer emits {} but the reader accepts {}'.format(
+                  sorted(names), sorted(accepted)), w.loc)
+    res.check(disp.get('no_such_section') == 'raise', 'R-C03-sections',
+              r.qual, 'an unknown section is refused', '',
+              'an unknown section name is accepted silently', r.loc)
+    # ---- same attribute, same class on both sides -------------------------
+    g = ctx.model.func('pico8.game.game:Game.make_empty_game')
+    cls_of_attr = {}
+    from ..absint.symbody import SymBody
+    for p in SymBody(ctx, g, no_inline={'empty', 'from_lines'}).run(
+            g.node.body):
+        for ev in p.events:
+            if ev[0] == 'set' and isinstance(ev[2], ast.Call):
+                fn = ev[2].func
+                base = fn.value if isinstance(fn, ast.Attribute) else fn
+                cn = T._class_name(ctx, g, base)
+                if cn:
+                    cls_of_attr[ev[1].split('.')[-1]] = cn
+    for sec in names:
+        if sec not in accepted:
+            continue
+        wattr = srcs.get(sec)
+        rattr, rcls = accepted[sec][0]
+        rattr = rattr.split('.')[-1]
+        if sec == 'lua':
+            ok = wattr == 'lua' and rattr == 'lua' and rcls == 'Lua'
+            wcls = 'Lua'
+        else:
+            wcls = cls_of_attr.get(wattr)
+            if wattr is None or wcls is None:
+                res.undecided('R-C03-sections', w.qual,
+                              '__{}__: written by and read into the same '
+                              'section class'.format(sec),
+                              'source of the written lines / class of '
+                              'game.{} not followed'.format(wattr), w.loc)
+                continue
+            ok = wattr == rattr and wcls == rcls
+        res.check(ok, 'R-C03-sections', w.qual,
+                  '__{}__: written by and read into the same section '
+                  'class'.format(sec), 'game.{} ({})'.format(wattr, wcls),
+                  '__{}__ is written from game.{} ({}) but read into '
+                  'game.{} with {}.from_lines'.format(sec, wattr, wcls, rattr,
+                                                      rcls), w.loc)
+    # ---- label iff the cart has one ---------------------------------------
+    bad = None
+    for (has, pol, p) in label_rule:
+        if has and pol is not True:
+            bad = 'the label section is written on a path that does not ' \
+                  'test game.label ({})'.format(p.cond_text()[-80:] or
+                                                'unconditionally')
+        if not has and pol is True:
+            bad = 'a cart with a label is written without its __label__ ' \
+                  'section'
+    if not has_label_anywhere:
+        bad = 'no path writes a __label__ section'
+    res.check(bad is None, 'R-C03-text', w.qual,
+              '__label__ written iff the cart has a label', '', bad or '',
+              w.loc)
+    lab_src = srcs.get('label')
+    res.check(lab_src == 'label' or not has_label_anywhere, 'R-C03-text',
+              w.qual, '__label__ lines come from game.label', '',
+              'label lines are taken from game.{}'.format(lab_src), w.loc)
+    # reader: starts without a label
+    init_none = False
+    for p in SymBody(ctx, r, no_inline={'from_lines'}).run(r.node.body):
+        for ev in p.events:
+            if ev[0] == 'loop':
+                break
+            if ev[0] == 'set' and ev[1].endswith('.label') and isinstance(
+                    ev[2], ast.Constant) and ev[2].value is None:
+                init_none = True
+    res.check(init_none, 'R-C03-text', r.qual,
+              'reader starts without a label and sets it from __label__',
+              '', 'a cart without __label__ is read with a label (the '
+              'reader does not reset game.label before the sections)', r.loc)
+    return written, traces, w, r
 
 
 def _part(res, rule, sec, fn):
@@ -638,10 +778,31 @@ def rule_reader_lines(ctx, res, rule_id):
                   raw.loc)
 
 
-def rule_text(ctx, res):
+def rule_text(ctx, res, traced=False):
     model = ctx.model
     w = model.func(P8 + ':P8Formatter.to_file')
     rule_lua_lines(ctx, res)
+    rule_reader_lines(ctx, res, 'R-C03-text')
+    r = model.func(P8 + ':P8Formatter.from_file')
+    rs = ast.unparse(r.node).replace(' ', '')
+    if not traced:
+        _rule_label_shape(ctx, res, w, r, rs)
+    # the gfx of the map is re-linked when gfx is read after map
+    linked = '._gfx=new_game.gfx' in rs and (
+        'gfx=my_gfx' in rs or 'gfx=new_game.gfx' in rs)
+    if linked:
+        res.holds('R-C03-text', r.qual,
+                  'map and gfx stay linked whatever the section order', '',
+                  r.loc)
+    else:
+        res.undecided('R-C03-text', r.qual,
+                      'map and gfx stay linked whatever the section order',
+                      'the re-linking of map and gfx is not written in the '
+                      'recognised form', r.loc)
+
+
+def _rule_label_shape(ctx, res, w, r, rs):
+    model = ctx.model
     lab = False
     for n in w.node.body:
         if isinstance(n, ast.If) and ast.unparse(n.test) == 'game.label':
@@ -651,19 +812,10 @@ def rule_text(ctx, res):
     res.check(lab, 'R-C03-text', w.qual, '__label__ written iff the cart '
               'has a label', '', 'label section is written unconditionally '
               'or from another source', w.loc)
-    r = model.func(P8 + ':P8Formatter.from_file')
-    rs = ast.unparse(r.node).replace(' ', '')
     res.check('new_game.label=None' in rs and
               "new_game.label=Gfx.from_lines(" in rs, 'R-C03-text', r.qual,
               'reader starts without a label and sets it from __label__',
               '', 'label reading changed', r.loc)
-    rule_reader_lines(ctx, res, 'R-C03-text')
-    # the gfx of the map is re-linked when gfx is read after map
-    res.check('._gfx=new_game.gfx' in rs and (
-        'gfx=my_gfx' in rs or 'gfx=new_game.gfx' in rs),
-              'R-C03-text', r.qual,
-              'map and gfx stay linked whatever the section order', '',
-              'map/gfx link is lost on read', r.loc)
 
 
 def run(ctx, res):
@@ -673,8 +825,16 @@ def run(ctx, res):
         decided = rule_roundtrip(ctx, res, sizes)
     except AnalysisError as e:
         res.info('R-C03-layout', 'rule_roundtrip', 'analysis', str(e))
-    for rule, args in ((rule_sections, ()), (rule_linelen, (sizes, decided)),
-                       (rule_layout, (decided,)), (rule_text, ())):
+    traced = False
+    try:
+        rule_sections_traced(ctx, res)
+        traced = True
+    except AnalysisError as e:
+        res.info('R-C03-sections', 'rule_sections_traced', 'path-wise model '
+                 'of to_file / from_file not extracted', str(e)[:160])
+    for rule, args in ((rule_sections, (traced,)),
+                       (rule_linelen, (sizes, decided)),
+                       (rule_layout, (decided,)), (rule_text, (traced,))):
         try:
             rule(ctx, res, *args)
         except AnalysisError as e:
